@@ -644,7 +644,7 @@ func drawEntry(rt *rapid.T) Entry {
 }
 
 func drawStatus(rt *rapid.T) StatusSpec {
-	s := StatusSpec{Code: uint32([]codes.Code{codes.FailedPrecondition, codes.Unimplemented, codes.InvalidArgument, codes.Internal}[rapid.IntRange(0, 3).Draw(rt, "code")])}
+	s := StatusSpec{Code: uint32([]codes.Code{codes.FailedPrecondition, codes.Unimplemented, codes.InvalidArgument, codes.Internal, codes.Unknown}[rapid.IntRange(0, 4).Draw(rt, "code")])}
 	if rapid.Bool().Draw(rt, "msg?") {
 		s.Msg = []string{"boom", "other"}[rapid.IntRange(0, 1).Draw(rt, "msg")]
 	}
@@ -744,6 +744,12 @@ func drawCase(rt *rapid.T) Case {
 					w.Reason = &r
 				case 3:
 					w.Code = uint32(codes.NotFound)
+				}
+			} else if c.PlainRecv > 0 && rapid.IntRange(0, 2).Draw(rt, "want-like-plain?") == 0 {
+				// a status that a careless conversion of the plain (non-status) receive error yields
+				w = StatusSpec{Code: uint32(codes.Unknown)}
+				if rapid.Bool().Draw(rt, "plain-msg?") {
+					w.Msg = "EOF-like plain error"
 				}
 			} else {
 				w = drawStatus(rt)
